@@ -42,6 +42,7 @@ type caseCfg struct {
 	crossCloseOnly bool
 	scenario       string
 	client         bool
+	loops          int
 	writeSizes     []int
 	steps          int
 	maxConns       int
@@ -51,7 +52,7 @@ type caseCfg struct {
 
 func (c *caseCfg) header() []string {
 	return []string{"et=" + tr.B(c.et), "chunk=" + tr.I(c.chunk), "bufcap=" + tr.I(c.bufcap), "proto=" + c.proto,
-		"reuseport=" + tr.B(c.reuseport), "sndbuf=" + tr.I(c.sndbuf), "focus=" + c.focus}
+		"reuseport=" + tr.B(c.reuseport), "sndbuf=" + tr.I(c.sndbuf), "loops=" + tr.I(c.loops), "focus=" + c.focus}
 }
 
 type peer struct {
@@ -71,7 +72,7 @@ type peer struct {
 var pcount int
 
 func genCfg(rnd *tr.Rand, focus string) *caseCfg {
-	c := &caseCfg{focus: focus}
+	c := &caseCfg{focus: focus, loops: 1}
 	switch rnd.Intn(3) {
 	case 0:
 	case 1:
@@ -100,6 +101,15 @@ func genCfg(rnd *tr.Rand, focus string) *caseCfg {
 	}
 	c.steps = rnd.Range(4, 30)
 	c.maxConns = rnd.Range(1, 3)
+	c.loops = 1
+	if focus == "multi" {
+		// several event loops: loop 0 is modelled, the others are judged by the direct oracles only
+		c.loops = rnd.Range(2, 4)
+		c.maxConns = rnd.Range(3, 6)
+		c.steps = rnd.Range(15, 40)
+		c.pShutdown = 0
+		c.pCross = 0
+	}
 	if strings.HasPrefix(focus, "scenario:") {
 		c.scenario = strings.TrimPrefix(focus, "scenario:")
 		c.et, c.chunk, c.bufcap, c.proto, c.reuseport, c.sndbuf = false, 0, 65536, "tcp", true, 0
@@ -270,7 +280,7 @@ func runCase(w *tr.Writer, seed uint64, idx int, focus string) {
 		port := freePort()
 		addr, dialNet, dialAddr = fmt.Sprintf("tcp://127.0.0.1:%d", port), "tcp", fmt.Sprintf("127.0.0.1:%d", port)
 	}
-	opts := []gnet.Option{gnet.WithNumEventLoop(1), gnet.WithReadBufferCap(cfg.bufcap), gnet.WithReusePort(cfg.reuseport)}
+	opts := []gnet.Option{gnet.WithNumEventLoop(cfg.loops), gnet.WithReadBufferCap(cfg.bufcap), gnet.WithReusePort(cfg.reuseport)}
 	if cfg.et {
 		opts = append(opts, gnet.WithEdgeTriggeredIO(true))
 	}
@@ -281,6 +291,7 @@ func runCase(w *tr.Writer, seed uint64, idx int, focus string) {
 	rec.ledgerOn = true
 	rec.reactor = !(cfg.client || cfg.udp || (cfg.reuseport && cfg.proto != "unix"))
 	rec.client = cfg.client
+	rec.nloops = cfg.loops
 	rec.mu.Unlock()
 	done := make(chan error, 1)
 	var cli *gnet.Client
@@ -414,7 +425,7 @@ func runCase(w *tr.Writer, seed uint64, idx int, focus string) {
 			woken(seq, 2*time.Second)
 			quiet()
 			rec.mu.Lock()
-			p.cid = rec.nextCid - 1
+			p.cid = rec.nextGid - 1
 			rec.mu.Unlock()
 		}
 		seq := rec.seq()
@@ -472,14 +483,14 @@ func runCase(w *tr.Writer, seed uint64, idx int, focus string) {
 					seq = rec.seq()
 					switch kind {
 					case "wake":
-						rec.Op(tr.L("async", "wake", tr.I(a.cid), "1"))
+						h.op(a, tr.L("async", "wake", tr.I(a.mcid), "1"))
 						a.c.Wake(h.acb("wake", a, true, nil))
 					case "write":
 						data := []byte("late-data")
-						rec.Op(tr.L("async", "write", tr.I(a.cid), tr.X(data), "1"))
+						h.op(a, tr.L("async", "write", tr.I(a.mcid), tr.X(data), "1"))
 						a.c.AsyncWrite(data, h.acb("write", a, true, data))
 					case "close":
-						rec.Op(tr.L("async", "close", tr.I(a.cid), "1"))
+						h.op(a, tr.L("async", "close", tr.I(a.mcid), "1"))
 						a.c.CloseWithCallback(h.acb("close", a, true, nil))
 					}
 					woken(seq, time.Second)
@@ -496,7 +507,7 @@ func runCase(w *tr.Writer, seed uint64, idx int, focus string) {
 				}
 				for i := 0; i < 1500; i++ {
 					data := []byte(fmt.Sprintf("%07d ", i))
-					rec.Op(tr.L("async", "write", tr.I(ci.cid), tr.X(data), "1"))
+					h.op(ci, tr.L("async", "write", tr.I(ci.mcid), tr.X(data), "1"))
 					ci.c.AsyncWrite(data, h.acb("write", ci, true, data))
 				}
 				close(h.release)
@@ -595,7 +606,7 @@ func runCase(w *tr.Writer, seed uint64, idx int, focus string) {
 			peers = append(peers, p)
 			quiet()
 			rec.mu.Lock()
-			p.cid = rec.nextCid - 1
+			p.cid = rec.nextGid - 1
 			rec.mu.Unlock()
 			w.Hist("client-dial")
 		case !cfg.client && len(peers) < cfg.maxConns && (len(lp) == 0 || k < 12):
@@ -608,7 +619,7 @@ func runCase(w *tr.Writer, seed uint64, idx int, focus string) {
 			woken(seq, 2*time.Second)
 			quiet()
 			rec.mu.Lock()
-			p.cid = rec.nextCid - 1
+			p.cid = rec.nextGid - 1
 			rec.mu.Unlock()
 			w.Hist("connect")
 		case len(lp) == 0:
@@ -675,21 +686,21 @@ func runCase(w *tr.Writer, seed uint64, idx int, focus string) {
 			switch {
 			case kk < 4:
 				data := h.payload(rnd.Pick([]int{1, 100, 5000, 100000}))
-				rec.Op(tr.L("async", "write", tr.I(p.cid), tr.X(data), tr.B(cb)))
+				h.op(ci, tr.L("async", "write", tr.I(ci.mcid), tr.X(data), tr.B(cb)))
 				ci.c.AsyncWrite(data, h.acb("write", ci, cb, data))
 				w.Hist("async-write")
 			case kk < 6:
 				data := h.payload(rnd.Pick([]int{2, 100, 5000}))
 				segs := splitSegs(data, rnd.Pick([]int{1, 2, 3}))
-				rec.Op(tr.L("async", append([]string{"writev", tr.I(p.cid), tr.B(cb)}, segArgs(segs)...)...))
+				h.op(ci, tr.L("async", append([]string{"writev", tr.I(ci.mcid), tr.B(cb)}, segArgs(segs)...)...))
 				ci.c.AsyncWritev(segs, h.acb("writev", ci, cb, data))
 				w.Hist("async-writev")
 			case kk < 8:
-				rec.Op(tr.L("async", "wake", tr.I(p.cid), tr.B(cb)))
+				h.op(ci, tr.L("async", "wake", tr.I(ci.mcid), tr.B(cb)))
 				ci.c.Wake(h.acb("wake", ci, cb, nil))
 				w.Hist("async-wake")
 			default:
-				rec.Op(tr.L("async", "close", tr.I(p.cid), tr.B(cb)))
+				h.op(ci, tr.L("async", "close", tr.I(ci.mcid), tr.B(cb)))
 				ci.localReq = true
 				if cb {
 					ci.c.CloseWithCallback(h.acb("close", ci, true, nil))
